@@ -371,7 +371,7 @@ func checkC16(e *core.Env) {
 		case "http":
 			s := httpgrpc.NewServer(httpgrpc.WithServerUnaryInterceptor(tu), httpgrpc.WithServerStreamInterceptor(ts))
 			s.RegisterService(final, svc)
-			c := httpCarrier("http", nil, s, "/", false)
+			c := httpCarrier("http", nil, s, "/", false, false)
 			cc, closeFn = c.CC, c.Close
 		}
 		if closeFn != nil {
